@@ -363,6 +363,13 @@ def run_history(hist):
         handed.append(upd)
         if seed is not None:
             random.seed(seed)
+        # Engine.front across the update: every registered process gets an entry tagged with the path it has now;
+        # afterwards the entry of a process object must be where the object is (Model/Fronts.v)
+        tags = {}
+        eng.front = {}
+        for n, ppath in enumerate(eng.process_paths):
+            tags[1000 + n] = list(ppath)
+            eng.front[ppath] = {'time': 1000 + n, 'update': {}}
         try:
             with contextlib.redirect_stdout(io.StringIO()):
                 expire = eng.apply_update(upd, holder)
@@ -374,7 +381,9 @@ def run_history(hist):
         del LINKS[:]
         cur = dump_tree(eng.state, keep)
         nodes, objs = index_ids(prev)
-        obs.append({'tree': annotate(cur, nodes, objs), 'book': observe_book(eng), 'links': list(LINKS)})
+        book = observe_book(eng)
+        book['front'] = [[list(fp), tags.get(e.get('time'))] for fp, e in eng.front.items()]
+        obs.append({'tree': annotate(cur, nodes, objs), 'book': book, 'links': list(LINKS)})
         prev = cur
     return obs, eng, keep
 
@@ -441,13 +450,14 @@ def r_seg(s):
 
 def r_book(b):
     return ('{| o_procs := %s; o_steps := %s; o_seq := %s; o_gnodes := %s; o_gedges := %s; '
-            'o_pubp := %s; o_pubs := %s; o_pubt := %s; o_pubf := %s |}') % (
+            'o_pubp := %s; o_pubs := %s; o_pubt := %s; o_pubf := %s; o_front := %s |}') % (
         clist([r_path(p) for p in b['procs']]), clist([r_path(p) for p in b['steps']]),
         clist([r_path(p) for p in b['seq']]), clist([r_path(p) for p in b['gnodes']]),
         clist([cpair(r_path(a), r_path(x)) for a, x in b['gedges']]),
         clist([r_path(p) for p in b['pubp']]), clist([r_path(p) for p in b['pubs']]),
         clist([r_path(p) for p in b['pubt']]),
-        clist([cpair(r_path(p), clist([clist([r_seg(s) for s in d]) for d in deps])) for p, deps in b['pubf']]))
+        clist([cpair(r_path(p), clist([clist([r_seg(s) for s in d]) for d in deps])) for p, deps in b['pubf']]),
+        clist([cpair(r_path(p), r_path(t) if t is not None else clist([cN(999)])) for p, t in b.get('front', [])]))
 
 
 def render(c, ob, variant='vfixed'):
